@@ -18,6 +18,10 @@ RULE = ("A case is one instant + one state; the check walks through *all* ordere
         "JPL shards Moon, Sun, MarsBarycenter, SolarSystemBarycenter. Reference facets draw dates "
         "evenly over 1973-2017.")
 ASSUMPTIONS = [
+    "attached_origin: the reference orbits include SGP4 orbits from a TLE and a numerically propagated orbit with an "
+    "impulsive maneuver dated at its epoch (their stored state is not what their propagator returns at that date); "
+    "dates include exactly the reference's epoch and epoch +- 1 us; oracle = reference.propagate(date) taken to the "
+    "parent frame by the library's cartesian conversion + own QSW / TNW triads",
     "inverse facet: the six numbers of a state are handed over as list / tuple / float64 / float32 / python-int / "
     "int64 containers (the caller's array must stay untouched and unshared), the state may be a clone (.copy(), "
     "pickle, copy.copy, copy.deepcopy - the original must stay untouched), the target frame is named by object, by "
@@ -170,7 +174,39 @@ def world(wid, jpl):
     for name in BUILTIN + (JPL if jpl else []):
         fr[name] = frames.get_frame(name)
     fr["_spec"] = spec
+    fr["_orb"] = orb
+    fr["_parent"] = parent
     _worlds[wid] = fr
+    return fr
+
+
+def burn_world(wid):
+    """Three frames attached to a numerically propagated orbit that carries an impulsive maneuver dated at
+    its own epoch: the stored state is then NOT what the orbit's propagator gives at that date."""
+    key = ("burn", wid)
+    if key in _worlds:
+        return _worlds[key]
+    from beyond.dates import Date, timedelta
+    from beyond.env.solarsystem import get_body
+    from beyond.frames import frames
+    from beyond.orbits import Orbit
+    from beyond.orbits.man import ImpulsiveMan
+
+    Earth = get_body("Earth")
+    from beyond.propagators.keplernum import KeplerNum
+
+    spec = world_spec(wid, False)
+    k = spec["kep"]
+    cart = tb.kep2cart(k["a"], k["e"], k["i"], k["raan"], k["argp"], k["nu"], MU_EARTH)
+    epoch = Date(spec["epoch"], 43200.0)
+    orb = Orbit(list(cart), epoch, "cartesian", "EME2000", KeplerNum(timedelta(seconds=60), Earth))
+    orb.maneuvers = [ImpulsiveMan(epoch, [20.0, -35.0, 50.0])]
+    parent = frames.get_frame("EME2000")
+    fr = {"ORB": frames.orbit2frame(f"B{wid}O", orb, parent=parent),
+          "QSW": frames.orbit2frame(f"B{wid}Q", orb, orientation="QSW", parent=parent),
+          "TNW": frames.orbit2frame(f"B{wid}T", orb, orientation="TNW", parent=parent),
+          "_spec": dict(spec, ref_frame="EME2000", parent="EME2000"), "_orb": orb, "_parent": parent}
+    _worlds[key] = fr
     return fr
 
 
@@ -1065,6 +1101,73 @@ def env_eop_once():
     env.eop("zero")
 
 
+# ----------------------------------------------------------------- facet: where an orbit-attached frame is
+
+WHEN = ["epoch", "epoch", "epoch+1us", "epoch-1us", "later", "earlier"]
+
+
+@st.composite
+def attached_case(draw, shard, tier):
+    d = D(draw)
+    burn = (d.int(0, 3) + shard) % 4 == 0
+    wid = shard * 4 + d.int(0, 2)
+    when = WHEN[(d.int(0, 5) + shard) % 6]
+    if burn and when in ("epoch-1us", "earlier"):
+        when = "later"  # the numerical propagator of that world only goes forward
+    return dict(shard=shard, jpl=False, world=wid, burn=burn, when=when,
+                offset_us=d.int(2, 600) * 10**6 + d.int(0, 999999), label=ALL_LABELS[(d.int(0, 5) + shard) % 6],
+                probe=[d.u(-1e4, 1e4) for _ in range(3)])
+
+
+def check_attached(case):
+    """The origin of an orbit-attached frame at t is reference.propagate(t) - at every t, the reference's
+    own epoch included - and its axes are those of the reference frame / the QSW / TNW triad of that state."""
+    from beyond.dates import timedelta
+    from beyond.orbits import StateVector
+
+    fr = burn_world(case["world"]) if case["burn"] else world(case["world"], False)
+    orb, parent = fr["_orb"], fr["_parent"]
+    shift = {"epoch": 0, "epoch+1us": 1, "epoch-1us": -1, "later": case["offset_us"], "earlier": -case["offset_us"]}[case["when"]]
+    dt = orb.date if shift == 0 else orb.date + timedelta(microseconds=shift)
+    if case["label"] != dt.scale.name:
+        dt = dt.change_scale(case["label"])
+    ref = orb.propagate(dt)
+    in_parent = np.asarray(ref.copy(form="cartesian", frame=parent).base, float)
+    in_own = np.asarray(ref.copy(form="cartesian").base, float)
+    r0, v0 = in_parent[:3], in_parent[3:]
+    h = np.cross(r0, v0)
+    triads = {"QSW": np.array([r0 / np.linalg.norm(r0), np.cross(h, r0) / np.linalg.norm(np.cross(h, r0)), h / np.linalg.norm(h)]),
+              "TNW": np.array([v0 / np.linalg.norm(v0), np.cross(h, v0) / np.linalg.norm(np.cross(h, v0)), h / np.linalg.norm(h)])}
+    x = np.array(case["probe"], float)
+    tol_p = 1e-6 + 1e-13 * float(np.linalg.norm(r0))
+    tol_v = 1e-9 + 1e-13 * float(np.linalg.norm(v0))
+    worst = 0.0
+
+    def gauge(got, want, what):
+        nonlocal worst
+        dp = float(np.linalg.norm(got[:3] - want[:3]))
+        dv = float(np.linalg.norm(got[3:] - want[3:]))
+        worst = max(worst, dp / tol_p, dv / tol_v)
+        if not (dp <= tol_p and dv <= tol_v):
+            raise Violation("attached-origin",
+                            f"{what} at {case['when']} of its reference orbit ({'burn at epoch' if case['burn'] else fr['_spec']['ref_frame'] + ' reference'}"
+                            f", date {dt}): {dp:.6g} m, {dv:.3g} m/s from reference.propagate(date)")
+
+    for name in ("ORB", "QSW", "TNW"):
+        origin = np.asarray(StateVector([0.0] * 6, dt, "cartesian", fr[name]).copy(frame=parent).base, float)
+        gauge(origin, in_parent, f"origin of the {name} frame")
+        back = np.asarray(StateVector(list(in_parent), dt, "cartesian", parent).copy(frame=fr[name]).base, float)
+        gauge(back + in_parent, in_parent, f"reference state seen from the {name} frame (should be zero)")
+    # axes
+    pt = np.asarray(StateVector(list(x) + [0, 0, 0], dt, "cartesian", fr["ORB"]).copy(frame=orb.frame).base, float)
+    gauge(pt, in_own + np.concatenate((x, np.zeros(3))), "a point of the ORB frame, in the reference's own frame")
+    for name, tri in triads.items():
+        pt = np.asarray(StateVector(list(x) + [0, 0, 0], dt, "cartesian", fr[name]).copy(frame=parent).base, float)
+        gauge(pt, in_parent + np.concatenate((tri.T @ x, np.zeros(3))), f"a point of the {name} frame")
+    return dict(nt=True, cls=[f"when:{case['when']}", "ref:burn-at-epoch" if case["burn"] else f"ref:{fr['_spec']['ref_frame']}",
+                              f"label:{case['label']}"], ratio=worst)
+
+
 # ----------------------------------------------------------------- facet: element forms across central bodies
 
 FORMS = ["cartesian", "spherical", "cylindrical", "keplerian", "keplerian_eccentric", "keplerian_mean",
@@ -1263,6 +1366,8 @@ FACETS = [
     Facet("eop_switch", switch_case, check_switch, setup=setup_switch,
           rule="at least two different configurations (or a synthetic one) on the same calendar date, one process",
           quick=(8, 30), thorough=(16, 500)),
+    Facet("attached_origin", attached_case, check_attached, setup=setup_world,
+          rule="every case (a third at exactly the reference's epoch)", quick=(6, 40), thorough=(24, 400)),
     Facet("forms_across_bodies", bodies_case, check_bodies, setup=setup_bodies,
           rule="state held in a mu-dependent form, frames about bodies with different mu",
           quick=(8, 60), thorough=(16, 1500)),
